@@ -36,7 +36,9 @@ Inductive item := IStmt (p:N) | IAuto (ps:list N).
 Record ostep := mkOstep {
   os_body : list item;
   os_nver : nat;               (* number of version-table statements HeadMaintainer.update_to_step emits for the step *)
-  os_empty_after : bool        (* head_maintainer.heads is empty after the step                                       *)
+  os_empty_after : bool;       (* head_maintainer.heads is empty after the step                                       *)
+  os_hooks : list N            (* statements the on_version_apply callbacks emit through ctx.execute(): they run after
+                                  update_to_step, still inside `with self.begin_transaction(_per_migration=True)`        *)
 }.
 Record run := mkRun { r_init_empty : bool;      (* `not head_maintainer.heads` before the first step *)
                       r_steps : list ostep;
@@ -71,7 +73,8 @@ Definition step_chunks (d:dialect) (mc:mcfg) (k:N) (empty:bool) (s:ostep) : list
     ((if empty then exec_chunk d (RCreate k) else [])            (* self._version.create(self.connection) *)
      ++ [RRunning k]                                             (* static_output("-- Running ...")       *)
      ++ flat_map (item_chunks d (m_tddl mc) k) (os_body s)       (* step.migration_fn( **kw )              *)
-     ++ flat_map (fun j => exec_chunk d (RVersion k j)) (vidx (os_nver s))). (* head_maintainer.update_to_step(step) *)
+     ++ flat_map (fun j => exec_chunk d (RVersion k j)) (vidx (os_nver s))   (* head_maintainer.update_to_step(step) *)
+     ++ flat_map (fun p => exec_chunk d (RStmt k p false)) (os_hooks s)).    (* for callback in on_version_apply_callbacks *)
 
 Fixpoint steps_chunks (d:dialect) (mc:mcfg) (k:N) (empty:bool) (steps:list ostep) : list rchunk :=
   match steps with
@@ -95,7 +98,8 @@ Definition open_ctx (d:dialect) (b:bt) (body:list rchunk) : list rchunk :=
   end.
 Definition step_core (d:dialect) (mc:mcfg) (k:N) (empty:bool) (s:ostep) : list rchunk :=
   (if empty then exec_chunk d (RCreate k) else []) ++ [RRunning k]
-  ++ flat_map (item_chunks d (m_tddl mc) k) (os_body s) ++ flat_map (fun j => exec_chunk d (RVersion k j)) (vidx (os_nver s)).
+  ++ flat_map (item_chunks d (m_tddl mc) k) (os_body s) ++ flat_map (fun j => exec_chunk d (RVersion k j)) (vidx (os_nver s))
+  ++ flat_map (fun p => exec_chunk d (RStmt k p false)) (os_hooks s).
 Fixpoint steps_chunks_cut (d:dialect) (mc:mcfg) (k:N) (empty:bool) (steps:list ostep) : list rchunk :=
   match steps with
   | [] => []
@@ -109,6 +113,22 @@ Definition offline_chunks_cut (d:dialect) (c:ocfg) (r:run) : list rchunk :=
 (* what the output buffer holds when the command returns or raises *)
 Definition offline_out (d:dialect) (c:ocfg) (r:run) : list rchunk :=
   if r_cut r then offline_chunks_cut d c r else offline_chunks d c r.
+
+(* ---- several databases configured one after the other through ONE EnvironmentContext (the multidb env.py, --sql).
+   EnvironmentContext.configure:   opts = self.context_opts            -- one dict for all configure() calls
+                                   if transactional_ddl is not None: opts["transactional_ddl"] = transactional_ddl
+                                   opts["transaction_per_migration"] = transaction_per_migration
+   so an explicit override stays in force for later calls that give none; nothing else of a call — in particular not
+   the dialect it was made for, whose default MigrationContext only reads — reaches a later call. *)
+Record dbcall := mkCall { dc_dialect : dialect; dc_tddl : option bool; dc_per_mig : bool; dc_conn_in_txn : bool; dc_run : run }.
+Definition acc_tddl (prev arg:option bool) : option bool := match arg with Some b => Some b | None => prev end.
+Definition acc_of (env:option bool) (args:list (option bool)) : option bool := fold_left acc_tddl args env.
+Fixpoint multi_out (prev:option bool) (calls:list dbcall) : list (list rchunk) :=
+  match calls with
+  | [] => []
+  | c :: r => let a := acc_tddl prev (dc_tddl c) in
+              offline_out (dc_dialect c) (mkOcfg a (dc_per_mig c) (dc_conn_in_txn c) None) (dc_run c) :: multi_out a r
+  end.
 
 (* ------------------------------------------------------------------ chunks -> events *)
 
